@@ -413,8 +413,22 @@ func crashSequence(c *Ctx, seq int) {
 	}
 
 	nops := 8 + c.R.Intn(8)
+	bigAt := -1
+	if seq%6 == 2 {
+		bigAt = 2 + c.R.Intn(3) // one unusually large commit (megabytes) in this sequence, later rolled back
+	}
 	for step := 0; step < nops; step++ {
 		isPop := len(chain) > 0 && c.R.Intn(3) == 0
+		if step == bigAt {
+			isPop = false
+		}
+		if step == bigAt+1 && bigAt >= 0 {
+			isPop = true // roll the large commit back: the rollback is as large as the commit
+		}
+		if j2, err := activeJournal(dir); err == nil && j2 != journal {
+			journal = j2 // leveldb rotated its journal (memtable flushed)
+			c.Hit("journal-rotated")
+		}
 		before, ok := snapshotRaw()
 		if !ok {
 			return
@@ -446,6 +460,30 @@ func crashSequence(c *Ctx, seq int) {
 			if c.R.Intn(3) == 0 {
 				ops = append(ops, genOps(3)...)
 			}
+			if step == bigAt {
+				// 1–1.5 MiB of values (a 2–3 MiB batch with the redo record: below goleveldb's 4 MiB write buffer, so it goes
+				// through the journal); every third of these is three times larger and takes goleveldb's large-batch
+				// transaction path, which bypasses the journal (only the end points can be examined then)
+				nk := 256 + c.R.Intn(128)
+				if seq%18 == 2 {
+					nk *= 3
+				}
+				for i := 0; i < nk; i++ {
+					v := make([]byte, 4096)
+					c.R.Read(v)
+					k := append([]byte{4, 9}, byte(i>>8), byte(i))
+					ops = append(ops, kvOp{k: k, v: v})
+				}
+				c.Hit("add-megabytes")
+			} else if c.R.Intn(10) == 0 {
+				// a few hundred kilobytes
+				for i := 0; i < 40+c.R.Intn(60); i++ {
+					v := make([]byte, 2048+c.R.Intn(4096))
+					c.R.Read(v)
+					ops = append(ops, kvOp{k: append([]byte{4, 8}, byte(i)), v: v})
+				}
+				c.Hit("add-hundreds-of-kilobytes")
+			}
 			opDesc = fmt.Sprintf("vdb-add %s %s %s", verKey(prev), idStr(id), opsString(ops, false))
 			if err := m.Add(mkTx(prev, id, ops)); err != nil {
 				c.Fail("crash seq=%d: add failed: %v", seq, err)
@@ -460,6 +498,14 @@ func crashSequence(c *Ctx, seq int) {
 			if len(ops) >= 2 {
 				c.Hit("add-multi-key")
 			}
+		}
+		if j2, jerr := activeJournal(dir); jerr == nil && j2 != journal {
+			// leveldb froze its memtable and switched to a new journal during the operation
+			// (goleveldb switches BEFORE it writes a batch that does not fit the memtable: the operation's writes are the
+			// records of the new journal; everything older is in the frozen memtable / its table file)
+			journal = j2
+			endsBefore = nil
+			c.Hit("journal-rotated-during-op")
 		}
 		after, ok := snapshotRaw()
 		if !ok {
@@ -482,6 +528,12 @@ func crashSequence(c *Ctx, seq int) {
 			plan = append(plan, writesString(ws))
 		}
 		c.Emit("%s | ok", opDesc)
+		if na-nb == 0 && before != after {
+			// goleveldb wrote the batch as a table-file transaction (batch larger than the write buffer): no journal record
+			c.Emit("crash-plan-large | ok")
+			c.Hit("large-batch-transaction")
+			continue
+		}
 		c.Emit("crash-plan | %d %s", na-nb, strings.Join(plan, " ; "))
 		c.HitN("journal-writes", na-nb)
 
